@@ -25,6 +25,22 @@ pub fn run(req: &J) -> J {
   let filter: Option<Vec<String>> = opts.get("names").and_then(|n| n.as_array()).map(|a| {
     a.iter().filter_map(|s| s.as_str().map(|s| s.to_string())).collect()
   });
+  // parse_only: the lines go through `parse_repl_command` only (no command is executed): the recognised command with its
+  // arguments (Debug print) or "unrecognized" / "parse-panic"
+  if opts.get("parse_only").and_then(|b| b.as_bool()).unwrap_or(false) {
+    let lines = req.get("lines").and_then(|s| s.as_array()).cloned().unwrap_or_default();
+    let mut outs: Vec<J> = vec![];
+    for ln in lines.iter() {
+      let text = ln.as_str().unwrap_or("").to_string();
+      let o = match catch_unwind(AssertUnwindSafe(|| parse_repl_command(text.as_str()))) {
+        Ok(Ok((_, c))) => json!({"r":"ok","cmd":format!("{:?}", c)}),
+        Ok(Err(_)) => json!({"r":"unrecognized"}),
+        Err(_) => json!({"r":"parse-panic"}),
+      };
+      outs.push(o);
+    }
+    return json!({"outs": outs});
+  }
   let mut repl = MechRepl::new();
   let mut steps: Vec<J> = vec![];
   let lines = req.get("lines").and_then(|s| s.as_array()).cloned().unwrap_or_default();
